@@ -264,10 +264,21 @@ func linScale(a *Lin, k uint64) *Lin {
 func linTrunc(a *Lin, w int) *Lin {
 	m := mask(w)
 	r := &Lin{W: w, C: a.C & m}
+	var inner []*Lin
 	for _, t := range a.T {
-		if kk := t.K & m; kk != 0 {
-			r.T = append(r.T, LinTerm{t.A, kk})
+		kk := t.K & m
+		if kk == 0 {
+			continue
 		}
+		// a zero-extended N-bit quantity, N >= w, is that quantity modulo 2^w
+		if strings.HasPrefix(t.A.Op, "zext") && len(t.A.Args) == 1 && t.A.Args[0].W >= w && t.A.IteT == nil {
+			inner = append(inner, linScale(linTrunc(t.A.Args[0], w), kk))
+			continue
+		}
+		r.T = append(r.T, LinTerm{t.A, kk})
+	}
+	for _, x := range inner {
+		r = linAdd(r, x, false)
 	}
 	return r
 }
